@@ -88,3 +88,20 @@ func parkOn(p unsafe.Pointer) { park(p) }
 
 //go:norace
 func wakeOn(p unsafe.Pointer) { wakeWaiters(p) }
+
+// WakeAll makes every blocked task runnable again (each retries its operation and parks again
+// if it still cannot proceed).  Called after channel operations the simulator did not perform
+// itself (the cases of a non-blocking select).
+//
+//go:norace
+func WakeAll() {
+	if mode != ModeSim {
+		return
+	}
+	for i := 0; i < int(ntasks); i++ {
+		if tstate[i] == tsBlocked {
+			tstate[i] = tsRunnable
+			tblock[i] = nil
+		}
+	}
+}
